@@ -4,14 +4,16 @@
      same state (so the result does not depend on who edited or synced first);
    - the commutation premises for counters (full) and for array inserts on
      lists without moved elements (full for that fragment);
+   - object members: any two delivery orders of the same concurrent Sets show
+     the same value under every key (full for Sets; Removes are not covered);
    - that the server's delivery discipline is a per-client exactly-once,
      in-order stream (Props/C04.v), i.e. every replica applies the same set.
-   PARTIAL: the commutation premises for object sets (LWW), array move/delete/
+   PARTIAL: the commutation premises for object removes, array move/delete/
    set, text and tree are not proved; for those C01 is decided by the
    differential structure engines (model = code) plus the convergence oracle on
    real multi-client histories. *)
 From Coq Require Import List Permutation.
-From YV Require Import Crdt.RGAList Crdt.ElemRHT Proofs.SEC Proofs.RGAProofs Proofs.ERHTProofs Proofs.RGACommuteGen.
+From YV Require Import Crdt.RGAList Crdt.ElemRHT Proofs.SEC Proofs.RGAProofs Proofs.ERHTProofs Proofs.ERHTCommute Proofs.RGACommuteGen.
 
 Theorem C01_convergence_from_commutation :
   forall (S O : Type) (apply : S -> O -> option S) (hb : O -> O -> Prop) (Inv : S -> Prop),
@@ -51,3 +53,17 @@ Theorem C01_array_insert_commute : forall g p1 id1 v1 p2 id2 v2,
     slots g12 = slots g21 /\ visible g12 = visible g21 /\ plain_slots g12.
 Proof. exact rga_insert_commute. Qed.
 Print Assumptions C01_array_insert_commute.
+
+(* object members: two concurrent Sets commute, key by key *)
+Theorem C01_object_sets_commute : forall h ka a va kb b vb,
+  rht_wf h -> fresh h a -> fresh h b -> a <> b ->
+  forall k, view (pset (pset h ka a va) kb b vb) k = view (pset (pset h kb b vb) ka a va) k.
+Proof. exact set_set_commute. Qed.
+Print Assumptions C01_object_sets_commute.
+
+(* object members: any two delivery orders of the same concurrent Sets converge *)
+Theorem C01_object_sets_converge : forall h l1 l2,
+  rht_wf h -> all_fresh h l1 -> NoDup (map sop_id l1) -> Permutation l1 l2 ->
+  forall k, view (fold_left apply_sop l1 h) k = view (fold_left apply_sop l2 h) k.
+Proof. exact sets_converge. Qed.
+Print Assumptions C01_object_sets_converge.
